@@ -142,6 +142,51 @@ func rulePublishedResponse(c *Ctx, a *serverAnchors) {
 	}
 	allowed[a.proxyMW] = "fills the response it just built"
 	allowed[a.cacheable] = "sets the profile before publication"
+	// helpers of those: every call site lies in an allowed function and passes on that function's own response
+	// (its receiver / parameter) or a fresh one, so the helper's writes are that function's writes
+	for changed := true; changed; {
+		changed = false
+		for _, f := range c.P.allFuncs {
+			if _, ok := allowed[f]; ok || !isHelper(f) || len(f.Params) == 0 {
+				continue
+			}
+			sites, okAll := 0, true
+			for _, g := range c.P.allFuncs {
+				for _, b := range g.Blocks {
+					for _, in := range b.Instrs {
+						ci, isCall := in.(ssa.CallInstruction)
+						if !isCall || ci.Common().StaticCallee() != f {
+							continue
+						}
+						sites++
+						if _, isGo := in.(*ssa.Go); isGo {
+							okAll = false
+						}
+						if _, ok := allowed[g]; !ok {
+							okAll = false
+							continue
+						}
+						for i, arg := range ci.Common().Args {
+							if i >= len(f.Params) || !touchesResponse(f.Params[i], resp, 3) {
+								continue
+							}
+							if _, isParam := arg.(*ssa.Parameter); isParam {
+								continue
+							}
+							if isFreshBase(arg, c.P, 0) {
+								continue
+							}
+							okAll = false
+						}
+					}
+				}
+			}
+			if sites > 0 && okAll {
+				allowed[f] = "helper called only from an allowed function on that function's own response"
+				changed = true
+			}
+		}
+	}
 	n := 0
 	bad := []string{}
 	for _, f := range c.P.allFuncs {
